@@ -953,7 +953,10 @@ class Multiplexer(utils.EventEmitter):
             # Response
             logger.debug(f'>>> PN Response: {pn}')
             if self.state == Multiplexer.State.OPENING:
-                assert self.open_pn
+                if self.open_pn is None or pn.dlci != self.open_pn.dlci:
+                    # Not the answer to the PN command that is pending
+                    logger.warning(f'unexpected PN response for DLCI {pn.dlci}')
+                    return
                 dlc = DLC(
                     self,
                     dlci=pn.dlci,
